@@ -27,6 +27,9 @@ func TestVerifEndpoints(t *testing.T) {
 	if err := os.WriteFile(filepath.Join(base, "converter", "noisy.py"), []byte(noisy), 0o775); err != nil {
 		t.Fatal(err)
 	}
+	if err := os.WriteFile(filepath.Join(base, "converter", "quiet.py"), []byte(vConverterScript), 0o775); err != nil {
+		t.Fatal(err)
+	}
 	s, err := vNewScenario(t, base, &world, nil, true)
 	if err != nil {
 		t.Fatal(err)
@@ -131,6 +134,37 @@ func TestVerifEndpoints(t *testing.T) {
 		s.mgr.DelTag("tag/r")
 		s.mgr.DelTag("tag/q")
 	}
+	// a request goroutine reads what a view shows about a stream (tags, converters, converter output) while the
+	// converter attachments of the tag change
+	s.mgr.AddTag("mark/c", "", "id:0,1")
+	s.mgr.UpdateTag("mark/c", UpdateTagOperationSetConverter([]string{"noisy", "quiet"}))
+	stop := make(chan struct{})
+	readerDone := make(chan struct{})
+	go func() {
+		defer close(readerDone)
+		for {
+			select {
+			case <-stop:
+				return
+			default:
+			}
+			v := s.mgr.GetView()
+			if sc, err := v.Stream(0); err == nil && sc.Stream() != nil {
+				sc.AllTags()
+				sc.AllConverters()
+				sc.HasTag("mark/c")
+			}
+			v.Release()
+		}
+	}()
+	for i := 0; i < 40; i++ {
+		s.mgr.UpdateTag("mark/c", UpdateTagOperationSetConverter([]string{"quiet"}))
+		s.mgr.UpdateTag("mark/c", UpdateTagOperationSetConverter([]string{"noisy", "quiet"}))
+		s.mgr.UpdateTag("mark/c", UpdateTagOperationMarkAddStream([]uint64{2}))
+		s.mgr.UpdateTag("mark/c", UpdateTagOperationMarkDelStream([]uint64{2}))
+	}
+	close(stop)
+	<-readerDone
 	closer()
 	s.close()
 }
